@@ -204,6 +204,108 @@ def seq_fail(ctx, p, item, case, d, fam, k, ns, x, dtype='float64', form='list')
     ctx.pred_fail(item, case, d)
 
 
+
+# ------------------------------------------------------------------------------------------------
+# the caller's container of orders is an argument like any other: untouched by the call, and usable again
+# ------------------------------------------------------------------------------------------------
+REUSE_FORMS = ['int64', 'int32', 'arange', 'list', 'tuple', 'range']
+REUSE_LISTS = [[0, 1, 2, 3], [2, 5], [0, 3, 4, 7], [1], [3, 6, 9], [1, 2, 3], [0]]
+PAIR_REUSE_FORMS = ['int64', 'int32', 'list-of-lists', 'list-of-tuples', 'tuple']
+
+
+def orders_obj(ns, form):
+    if form in ('int64', 'int32'):
+        return np.array(ns, dtype=form)
+    if form == 'arange':
+        return np.arange(ns[0], ns[-1] + 1) if list(ns) == list(range(ns[0], ns[-1] + 1)) else np.array(ns)
+    if form == 'tuple':
+        return tuple(ns)
+    if form == 'range' and list(ns) == list(range(ns[0], ns[-1] + 1)):
+        return range(ns[0], ns[-1] + 1)
+    if form == 'list-of-lists':
+        return [list(q) for q in ns]
+    if form == 'list-of-tuples':
+        return [tuple(q) for q in ns]
+    return list(ns)
+
+
+def _frozen(obj):
+    if isinstance(obj, np.ndarray):
+        return ('ndarray', str(obj.dtype), obj.shape, obj.tolist())
+    if isinstance(obj, range):
+        return ('range', obj.start, obj.stop, obj.step)
+    return (type(obj).__name__, [list(q) if isinstance(q, (list, tuple)) else q for q in obj], [type(q).__name__ for q in obj])
+
+
+def orders_reuse(p, fam, k, ns, x, form, norm=True):
+    """ONE container object of orders passed to two successive calls: it must be unchanged after each call (values, dtype, length, element
+    types) and both calls must equal the loop over the single-order function.  fam: a key of FAMS, or zern / zern_der / q2d / xy with pair
+    lists (x = (a, b)).  -> None or a description"""
+    pairs = fam in ('zern', 'zern_der', 'q2d', 'xy')
+    obj = orders_obj(ns, form)
+    before = _frozen(obj)
+    what = f'{fam} seq routine with the orders {before[-2] if not isinstance(obj, np.ndarray) else before[3]} passed as {before[0]}' + (f' of {before[1]}' if isinstance(obj, np.ndarray) else '')
+    if pairs:
+        a, b = x
+        a0, b0 = np.array(a, copy=True), np.array(b, copy=True)
+        aa = np.clip(a, 1 / 64, 1) if fam == 'zern_der' else a
+
+        def call():
+            if fam == 'zern':
+                return p.zernike_nm_seq(obj, aa, b, norm=norm)
+            if fam == 'zern_der':
+                return p.zernike_nm_der_seq(obj, aa, b, norm=norm)
+            if fam == 'q2d':
+                return p.Q2d_seq(obj, aa, b)
+            return p.xy_seq(obj, aa, b, cartesian_grid=False)
+        one = {'zern': lambda n, m: p.zernike_nm(n, m, aa, b, norm=norm), 'zern_der': lambda n, m: np.array(p.zernike_nm_der(n, m, aa, b, norm=norm)),
+               'q2d': lambda n, m: p.Q2d(n, m, aa, b) * np.ones(np.shape(aa)), 'xy': lambda m, n: p.xy(m, n, aa, b, cartesian_grid=False)}[fam]
+        ref = [np.asarray(one(*q)) for q in ns]
+        tol = 1e-10
+    else:
+        seq, sc = FAMS[fam][0], FAMS[fam][1]
+        x0 = np.array(x, copy=True)
+
+        def call():
+            return seq(p, obj, k, x)
+        ref = [np.asarray(sc(p, n, k, x)) * np.ones(np.shape(x)) for n in ns]
+        tol = 2e-5 if np.asarray(x).dtype == np.float32 else 1e-10
+    for turn in (1, 2):
+        try:
+            out = np.asarray(call())
+        except Exception as ex:       # noqa
+            return f'{what}: call {turn} raised {type(ex).__name__}: {ex}'
+        after = _frozen(obj)
+        if after != before:
+            return (f'{what}: after call {turn} the caller\'s container holds {after[-2] if not isinstance(obj, np.ndarray) else after[3]}'
+                    + (f' ({after[1]})' if isinstance(obj, np.ndarray) else '') + ' -- the routine modified its orders argument in place')
+        if out.shape[0] != len(ref):
+            return f'{what}: call {turn} returned {out.shape[0]} rows for {len(ref)} orders'
+        bad = [i for i in range(len(ref)) if not close(out[i], ref[i], tol)]
+        if bad:
+            i = bad[0]
+            return (f'{what}: call {turn} with the same container object: rows for orders {[ns[j] for j in bad]} differ from the single-order function '
+                    f'(order {ns[i]}: {np.asarray(out[i]).ravel()[:3].tolist()} vs {np.asarray(ref[i]).ravel()[:3].tolist()})')
+    if pairs and not (np.array_equal(a, a0) and np.array_equal(b, b0)) or (not pairs and not np.array_equal(x, x0)):
+        return f'{what}: the coordinate arguments were modified in place'
+    return None
+
+
+def reuse_cases():
+    """(family, parameters, orders, form) for every one-index *_seq / *_der_seq routine and the pair-list routines"""
+    out = []
+    for fi, (fam, (seq, one, plist, dom, drv, exact)) in enumerate(FAMS.items()):
+        for li, ns in enumerate(REUSE_LISTS):
+            for form in REUSE_FORMS:
+                out.append((fam, plist[(li + fi) % len(plist)], ns, form))
+    for kind in ('zern', 'zern_der', 'q2d', 'xy'):
+        for prs in ([(2, 0), (3, 1), (3, -1)], [(1, 1)], [(4, 2), (2, 2), (4, -2), (2, 0)], [(0, 0), (1, -1), (5, 1)]):
+            pr = [(abs(a), abs(b)) for a, b in prs] if kind == 'xy' else prs
+            for form in PAIR_REUSE_FORMS:
+                out.append((kind, (), [list(q) for q in pr], form))
+    return out
+
+
 def all_subsets(top=8):
     out = []
     for mask in range(1, 1 << top):
@@ -354,6 +456,26 @@ def correspondence(ctx):
                 ctx.disagree(f'exact:{fam}', case, [str(v) for v in out][:6], r[:120])
     finally:
         _clear()
+
+    # ---------------- 1b. one container object of orders used for two successive calls: untouched, and both calls right
+    for ci, (fam, k, ns, form) in enumerate(reuse_cases()):
+        pairs = fam in ('zern', 'zern_der', 'q2d', 'xy')
+        shp = [(5,), (3, 4), ()][ci % 3]
+        if pairs:
+            isxy = fam == 'xy'
+            x = (_det_coords(shp, -1.9 if isxy else 0.1, 1.9 if isxy else 0.9), _det_coords(shp, -1.8, 1.7))
+        else:
+            lo, hi = FAMS[fam][3]
+            x = _det_coords(shp, lo, hi)
+        for norm in ((True, False) if fam.startswith('zern') and ci % 2 == 0 else (True,)):
+            case = {'family': fam, 'params': list(k), ('pairs' if pairs else 'ns'): ns, 'shape': list(shp), 'reuse_form': form, 'norm': norm}
+            ctx.case(f'reuse:{fam}', case, nontrivial=True, tag=f'{form}/{len(shp)}-D')
+            try:
+                d = orders_reuse(p, fam, k, [tuple(q) for q in ns] if pairs else ns, x, form, norm=norm)
+            except Exception as ex:       # noqa
+                d = f'raised {type(ex).__name__}: {ex}'
+            if d:
+                ctx.pred_fail(f'reuse:{fam}', case, d)
 
     # ---------------- 2. two-index families: pair lists in any order, repeats, vs the scalar functions
     npl = scale(60, 2500)
@@ -709,6 +831,20 @@ def search(ctx, hints):
                     if d:
                         return {'item': f'seq:{fam}', 'input': {'family': fam, 'params': list(plist[0]), 'ns': ns, 'shape': [3],
                                                                 'dtype': dt, 'ns_form': form}, 'detail': d}
+    for (fam, k, ns, form) in reuse_cases():
+        pairs = fam in ('zern', 'zern_der', 'q2d', 'xy')
+        if pairs:
+            isxy = fam == 'xy'
+            x = (_det_coords((3,), -1.9 if isxy else 0.1, 1.9 if isxy else 0.9), _det_coords((3,), -1.8, 1.7))
+        else:
+            x = _det_coords((3,), *FAMS[fam][3])
+        try:
+            d = orders_reuse(p, fam, k, [tuple(q) for q in ns] if pairs else ns, x, form)
+        except Exception as ex:       # noqa
+            d = f'raised {type(ex).__name__}: {ex}'
+        if d:
+            return {'item': f'reuse:{fam}', 'input': {'family': fam, 'params': list(k), ('pairs' if pairs else 'ns'): ns, 'shape': [3],
+                                                      'reuse_form': form, 'norm': True}, 'detail': d}
     for fam, (seq, one, plist, (lo, hi), drv, exact) in FAMS.items():
         base = _det_coords((24,), lo, hi)
         for ns in ([0, 1, 2], [2, 3], [1]):
@@ -751,6 +887,20 @@ def replay(inp):
         print(f'step {r[0] + 1}: {r[1]}' if r else 'every call of the history equals the single-order function')
         return bool(r)
     shp = tuple(c['shape'])
+    if 'reuse_form' in c:
+        pairs = 'pairs' in c
+        if pairs:
+            isxy = fam == 'xy'
+            x = (_det_coords(shp, -1.9 if isxy else 0.1, 1.9 if isxy else 0.9), _det_coords(shp, -1.8, 1.7))
+        else:
+            x = _det_coords(shp, *FAMS[fam][3])
+        try:
+            d = orders_reuse(p, fam, tuple(c.get('params', ())), [tuple(q) for q in c['pairs']] if pairs else c['ns'], x, c['reuse_form'],
+                             norm=bool(c.get('norm', True)))
+        except Exception as ex:       # noqa
+            d = f'raised {type(ex).__name__}: {ex}'
+        print(d or 'the orders container is untouched and both calls equal one-at-a-time evaluation')
+        return bool(d)
     if 'pairs' in c:
         kind = fam
         if fam == 'xy_grid':
@@ -776,14 +926,14 @@ def replay(inp):
 
 
 MANIFEST_ENTRY = {
-    'technique': 'Lean 4 proof by induction over the sweep control flow, on the hand model and on the statement-level translation of eight '
+    'technique': 'Lean 4 proof by induction over the sweep control flow, on the hand model and on the statement-level translation of nine '
                  '*_seq bodies + translator-generated shape/dtype/family facts + exhaustive small-scope differential testing of every *_seq',
     'text': ('PROVED for all inputs (Lean 4, no sorry, standard axioms): `sweep_eq_map` — for EVERY recurrence family and EVERY non-empty '
              'strictly ascending order list the one-pass sweep with a running index returns `ns.map eval`, in order, one row per order (hand '
              'model of the control flow; instances for jacobi, hermite He/H, laguerre, dickson1/2, Qbfs and the jacobi/hermite derivative '
              'sweeps); `table_lookup_eq_map` for every list of pairs; the NumPy broadcasting shape rule.  TRANSLATED from the current source '
              'and re-checked by the kernel each run: the bodies of jacobi_seq, hermite_He_seq, hermite_H_seq, hermite_He_der_seq, '
-             'hermite_H_der_seq, laguerre_seq, dickson1_seq, dickson2_seq statement by statement (running index, conditional row writes, early '
+             'hermite_H_der_seq, laguerre_seq, dickson1_seq, dickson2_seq, Qbfs_seq statement by statement (running index, conditional row writes, early '
              'returns, loop; state addressed by generated variable-name accessors) — each PROVED to return ns.map of the TRANSLATED single-order '
              'function for every non-empty strictly ascending list; the dtype of the rows of all nine value *_seq (theorem: it can hold floats '
              'for bool/int/float/complex coordinates — false on the pinned tree); the shape of the constants in the eight Chebyshev *_seq '
@@ -793,7 +943,11 @@ MANIFEST_ENTRY = {
              'one-index *_seq vs a Python loop over the scalar function, ROW BY ROW at 1e-10 of the row, for all 255 ascending subsets of {0..7}, '
              'all subsets of moving windows {k..k+4} up to order 39, random gapped lists to order 40, shapes (), (5,), (3,4), (4,4), '
              '(len(ns),3), (2,3,4), coordinate dtypes float64/int64/int32/float32/complex128, order lists as list/tuple/ndarray/range/generator/iter()/map() for EVERY *_seq (pair lists included), '
-             'pure_call (arguments not modified, second call equal); CALL HISTORIES, each started from the import-time state of the package '
+             'pure_call (arguments not modified, second call equal); ONE CONTAINER OBJECT OF ORDERS used for two successive calls (int64 / int32 / arange '
+             'ndarray, list, tuple, range; pair lists as int ndarray (N,2) / list of lists / list of tuples / tuple) for all 22 one-index routines and the '
+             'four pair-list routines: container unchanged after each call (values, dtype, element types) and both calls equal to the loop; translated '
+             'fact: no function of the polynomial modules applies an in-place operation to a parameter or a possible alias of one (output buffers alphas / out '
+             'excepted); CALL HISTORIES, each started from the import-time state of the package '
              '(modules re-executed, so no cache of any kind is warm): dtype / shape / config.precision switches with the same orders for all 22 '
              'routines, interleaved histories over two parameter tuples x two overlapping order lists x single/double precision (single first, '
              'double first, precision-32 first), and dtype / shape histories for the pair-list routines; a failure seen mid-run is re-derived as '
